@@ -131,7 +131,7 @@ theorem solveLoop_spec (eps : Rat) : ∀ (fuel : Nat) (st : SolveSt Rat), FullIn
     FullInv (solveLoop eps fuel st).s ∧ StoppedOK eps (solveLoop eps fuel st) := by
   intro fuel
   induction fuel with
-  | zero => intro st h; exact ⟨h, fun hc => by simp [solveLoop] at hc⟩
+  | zero => intro st h; exact ⟨fullInv_apply st.s h .unshrink trivial, fun hc => by simp [solveLoop] at hc⟩
   | succ fuel ih =>
     intro st h
     have hb := solveBody_spec eps st h
@@ -197,7 +197,7 @@ theorem sameStatic_solve (s : McBox Rat) (eps : Rat) (maxIter : Nat) : SameStati
     H maxIter { s := s, iter := 0, shrinkCounter := 0, stop := .running }
   intro fuel
   induction fuel with
-  | zero => intro st; exact SameStatic.refl _
+  | zero => intro st; exact sameStatic_unshrink st.s
   | succ fuel ih =>
     intro st
     unfold solveLoop
@@ -374,7 +374,7 @@ theorem renum_solveLoop (eps : Rat) : ∀ (fuel : Nat) (st : SolveSt Rat), FullI
     Renumbered st.s (solveLoop eps fuel st).s := by
   intro fuel
   induction fuel with
-  | zero => intro st _; exact Renumbered.refl _
+  | zero => intro st _; exact renum_unshrink st.s
   | succ fuel ih =>
     intro st h
     have hb := solveBody_spec eps st h
